@@ -165,6 +165,13 @@ def run(repo: Repo, rep: Report, tier: str) -> None:
     first = body[0] if body else None
     ok = isinstance(first, ast.If) and first.body and isinstance(first.body[0], ast.Return) and norm(first.body[0].value) == "signal_type" and "startswith('__')" in norm(first.test) and "not" in norm(first.test)
     rep.check(ok, "C13-R3", "explicit signal names are returned unchanged before any mapping", norm(first.test)[:100] if isinstance(first, ast.If) else "first statement is not the pass-through guard", rs.loc(first) if first is not None else rs.loc())
+    if isinstance(first, ast.If):
+        # the pass-through may depend on the name only: a test that also looks at the producer's entry (or anything else) sends some explicit names on to the
+        # entry's resolved name / the mapping, i.e. to a different signal than the program wrote
+        foreign = sorted({n.id for n in ast.walk(first.test) if isinstance(n, ast.Name) and n.id not in ("signal_type", "signal_data")})
+        rep.check(not foreign, "C13-R3", "the pass-through for explicit names depends on the name alone",
+                  "test reads only signal_type and the game's signal table" if not foreign else
+                  f"the test also reads {foreign}: an explicit name whose producer was resolved differently (a member read from a bundle, a projection) is renamed to the producer's signal", rs.loc(first))
 
     # ---------------- R4 ---------------------------------------------------------------
     rep.rule("C13-R4", "compiler-internal type keys never reach a combinator: in EntityPlacer every signal-valued property of a combinator placement that is taken from an IR field "
@@ -201,6 +208,52 @@ def run(repo: Repo, rep: Report, tier: str) -> None:
 
     # ---------------- R6 ---------------------------------------------------------------
     _borrow(repo, rep, "C07", "C07-R5", "C13-R6", "the signals the compiler picks reach the blueprint: the table the allocator writes is the very object the emitter reads")
+
+    # ---------------- R7 ---------------------------------------------------------------
+    rep.rule("C13-R7", "internal names of untyped values come from one counter: the lowerer adopts the analyzer's registry object, every wrapper asks `self.signal_registry` at the "
+             "moment of the call, and no holder captures a piece of a registry (a bound method, its counter, its table) in an attribute of its own — the registry is replaced "
+             "after the holder is built, and a captured piece keeps counting in the discarded one, so two values get the same `__vN`")
+    reg = repo.cls("SignalTypeRegistry")
+    ai = reg.methods["allocate_implicit"]
+    incs = [n for n in walk_local(ai.node) if isinstance(n, ast.AugAssign) and isinstance(n.op, ast.Add) and norm(n.target) == "self._implicit_counter"]
+    rets7 = [n for n in walk_local(ai.node) if isinstance(n, ast.Return) and n.value is not None]
+    c7 = __import__("fv.rules.util", fromlist=["canon"]).canon(ai)
+    ok7 = bool(incs) and bool(rets7) and all("self._implicit_counter" in c7.text(r.value) for r in rets7) and all(CFG_dom(ai, incs[0], r) for r in rets7)
+    rep.check(ok7, "C13-R7", "allocate_implicit advances the counter before naming", "counter += 1 dominates the return of a name built from it" if ok7 else "the name is not built from a freshly advanced counter", ai.loc())
+    lw = repo.func("ASTLowerer.__init__")
+    adopt = [n for n in walk_local(lw.node) if isinstance(n, ast.Assign) and norm(n.targets[0]) == "self.ir_builder.signal_registry"]
+    rep.check(len(adopt) == 1 and norm(adopt[0].value) == "self.semantic.signal_registry", "C13-R7", "the lowerer's builder adopts the analyzer's registry (same object)",
+              norm(adopt[0]) if adopt else "no adoption store", lw.loc(adopt[0]) if adopt else lw.loc())
+    n7 = 0
+    for f7 in repo.all_funcs():
+        if f7.cls is None or f7.cls.name == "SignalTypeRegistry" or f7.name != "allocate_implicit_type":
+            continue
+        cf7 = __import__("fv.rules.util", fromlist=["canon"]).canon(f7)
+        for r in [n for n in walk_local(f7.node) if isinstance(n, ast.Return) and n.value is not None]:
+            n7 += 1
+            t7 = cf7.text(r.value)
+            ok = t7 in ("self.signal_registry.allocate_implicit()", "self.signal_registry.allocate_implicit_type()")
+            rep.check(ok, "C13-R7", f"{f7.short}: asks the current registry", t7 if ok else f"returns `{t7[:80]}`: not a call on `self.signal_registry` evaluated now", f7.loc(r))
+    rep.floor("C13-R7", "wrappers of the implicit-name allocator", n7, 2)
+    holders = [c for c in repo.all_classes() if any(isinstance(n, ast.Assign) and any(norm(t) == "self.signal_registry" for t in n.targets) for m in c.methods.values() for n in walk_local(m.node))]
+    rep.floor("C13-R7", "classes holding a registry", len(holders), 2)
+    for c in holders:
+        caps = []
+        for m in c.methods.values():
+            for n in walk_local(m.node):
+                if isinstance(n, ast.Assign) and any(isinstance(t, ast.Attribute) and isinstance(t.value, ast.Name) and t.value.id == "self" for t in n.targets):
+                    v = n.value
+                    if isinstance(v, ast.Attribute) and norm(v).startswith("self.signal_registry."):
+                        caps.append((m, n))
+        rep.check(not caps, "C13-R7", f"{c.name}: no piece of the registry is captured in an attribute", "none" if not caps else
+                  f"`{norm(caps[0][1])[:90]}` keeps a piece of the registry the holder was built with", (caps[0][0].loc(caps[0][1]) if caps else c.loc()))
+
+
+
+def CFG_dom(f, a, b) -> bool:
+    from ..cfg import CFG
+
+    return CFG(f.node).dominates(a, b)
 
 
 def _stmt(pm, n):
